@@ -63,12 +63,14 @@ package hashgraph
 //@   requires t != nil
 //@   modifies nothing
 //@   ensures[valid] ret0 ==> ItxSigOK(*t)
+//@   call Hash assert[digest-of-body] __recv() != t
 
 //@ func (e *Event) Verify() (bool, error)
 //@   safety on
 //@   requires e != nil
 //@   modifies nothing
 //@   ensures[valid] ret0 ==> EventSigOK(e)
+//@   call Hash assert[digest-of-body] __recv() != e
 //@   loop 1 invariant[itxs] forall k int :: 0 <= k && k < __idx() ==> ItxSigOK(e.Body.InternalTransactions[k])
 
 // Signing fills in the signature over the hash of the body as it is at the call; the body is not touched.
@@ -761,6 +763,7 @@ package hashgraph
 //@   requires forall k int :: 0 <= k && k < len(frame.Events) ==> frame.Events[k] != nil && frame.Events[k].Core != nil
 //@   modifies nothing
 //@   ensures[header]  ret1 == nil ==> ret0 != nil && __fresh(ret0) && ret0.Body.Index == blockIndex && ret0.Body.RoundReceived == frame.Round && ret0.Body.Timestamp == frame.Timestamp && __seqeq(ret0.Body.FrameHash, FrameHashOf(*frame)) && __seqeq(ret0.Body.PeersHash, peers.PSHashOf(frame.Peers)) && ret0.Signatures != nil && len(ret0.Signatures) == 0 && len(ret0.Body.StateHash) == 0
+//@   ensures[own-payload] __owned(transactions) && __owned(internalTransactions)
 //@   ensures[payload] ret1 == nil ==> len(ret0.Body.Transactions) == __sumseq(frame.Events, len(frame.Events), func(e *FrameEvent) int { return len(e.Core.Body.Transactions) }) && (forall k int, j int :: 0 <= k && k < len(frame.Events) && 0 <= j && j < len(frame.Events[k].Core.Body.Transactions) ==> __seqeq(ret0.Body.Transactions[__sumseq(frame.Events, k, func(e *FrameEvent) int { return len(e.Core.Body.Transactions) }) + j], frame.Events[k].Core.Body.Transactions[j]))
 //@   ensures[itxs]    ret1 == nil ==> len(ret0.Body.InternalTransactions) == __sumseq(frame.Events, len(frame.Events), func(e *FrameEvent) int { return len(e.Core.Body.InternalTransactions) }) && (forall k int, j int :: 0 <= k && k < len(frame.Events) && 0 <= j && j < len(frame.Events[k].Core.Body.InternalTransactions) ==> __eq(ret0.Body.InternalTransactions[__sumseq(frame.Events, k, func(e *FrameEvent) int { return len(e.Core.Body.InternalTransactions) }) + j], frame.Events[k].Core.Body.InternalTransactions[j]))
 //@   loop 1 invariant[txbound]  forall k int :: 0 <= k && k < __idx() ==> 0 <= __sumseq(frame.Events, k, func(e *FrameEvent) int { return len(e.Core.Body.Transactions) }) && __sumseq(frame.Events, k, func(e *FrameEvent) int { return len(e.Core.Body.Transactions) }) + len(frame.Events[k].Core.Body.Transactions) <= len(transactions)
@@ -824,7 +827,7 @@ package hashgraph
 //@   modifies nothing
 //@   ensures[empty]     len(c.rounds) == 0 ==> ret1 != nil && ret0 == nil
 //@   ensures[latest-le] len(c.rounds) > 0 && round >= c.rounds[0] ==> ret1 == nil && ret0 != nil && (exists k int :: 0 <= k && k < len(c.rounds) && ret0 == c.peerSets[c.rounds[k]] && c.rounds[k] <= round && (k == len(c.rounds)-1 || round < c.rounds[k+1]))
-//@   aux[before-first]  len(c.rounds) > 0 && round < c.rounds[0] ==> ret1 == nil && ret0 == c.peerSets[c.rounds[0]]
+//@   ensures[before-first] len(c.rounds) > 0 && round < c.rounds[0] ==> ret1 == nil && ret0 == c.peerSets[c.rounds[0]]
 //@   loop 1 invariant[ge] 0 <= i && i <= len(c.rounds)-1 && round >= c.rounds[i] && !__in(round, c.peerSets)
 
 //@ func (c *PeerSetCache) Set(round int, peerSet *peers.PeerSet) error
@@ -1109,9 +1112,15 @@ package hashgraph
 // ParticipantEventsCache (C16): per-participant event listings. A participant is looked up by the upper-cased key
 // in the cache's peer set; every operation is then the RollingIndexMap operation on that peer's ID.
 //@ ghost func PID(p *peers.Peer) uint32 { return keys.KeyID(common.KeyBytesOf(p.PubKeyHex)) }
-//@ ghost func (pec *ParticipantEventsCache) wf() bool { return pec.participants != nil && pec.participants.WF() && pec.rim != nil && pec.rim.WF() && (forall p string :: __in(p, pec.participants.ByPubKey) ==> pec.rim.Has(PID(pec.participants.ByPubKey[p]))) }
+//@ ghost func (pec *ParticipantEventsCache) wf() bool { return pec.participants != nil && pec.participants.WF() && pec.rim != nil && pec.rim.WF() && (forall i int :: 0 <= i && i < len(pec.participants.Peers) ==> pec.rim.Has(PID(pec.participants.Peers[i]))) }
 //@ ghost func (pec *ParticipantEventsCache) known(participant string) bool { return __in(common.Upper(participant), pec.participants.ByPubKey) }
 //@ ghost func (pec *ParticipantEventsCache) idx(participant string) *common.RollingIndex { return pec.rim.At(PID(pec.participants.ByPubKey[common.Upper(participant)])) }
+
+//@ func (pec *ParticipantEventsCache) AddPeer(peer *peers.Peer) error
+//@   requires pec != nil && pec.wf() && peers.PeerOK(peer) && len(pec.participants.Peers) < 2147483647
+//@   modifies pec.participants, any common.RollingIndexMap.keys, anymap map[uint32]*common.RollingIndex
+//@   ensures[wf] pec.wf()
+//@   ensures[kept] forall i int :: 0 <= i && i < old(len(pec.participants.Peers)) ==> pec.participants.Peers[i] == old(pec.participants.Peers)[i]
 
 //@ func (pec *ParticipantEventsCache) participantID(participant string) (uint32, error)
 //@   requires pec != nil && pec.wf()
